@@ -745,6 +745,24 @@ def run(ctx):
                        'damaged bodies keep 7-bit header blocks (a damaged non-UTF-8 header value is outside the property)',
                        'the request carries a correct Content-Length',
                        'Cython twin falcon/cyutil/reader.pyx: stale-or-absent, not checked']
+    ctx.extra['bounds'] = {
+        'exhaustive (TLC)': 'forms of 0-2 parts over 12 adversarial contents x 2-4 header renderings (+ 2 JSON parts), '
+                            'boundaries b / bQ (70 bytes in the limit instance), <= 1 consumption call per part out of '
+                            'read(0..2) / read() / exhaust / get_data / get_text / get_media / read_until(3 delimiters x 4 sizes x '
+                            'consume); every limit at size-1 / size / size+1; every single edit (delete, insert, substitute; '
+                            '4-5 byte values) of 2 (quick) / 7 (thorough) encoded bodies',
+        'replayed / judged': 'forms of 0-6 parts (3 in TLC simulation), contents <= 40 bytes plus bodies around the 8 KiB / '
+                             '16 KiB / 32 KiB reader-buffer edges, boundaries of 1..70 bytes, reader buffers from the '
+                             'smallest legal size, transport chunks down to 1 byte'}
+    ctx.extra['observed_not_flagged'] = [
+        'get_data()/get_text() called again on a part after it raised "body part is too large" returns the first '
+        'limit+1 bytes (the buffer is memoised before the size check); the property does not define a second call',
+        'name / filename / content_type raise UnicodeDecodeError (a 500) when a header value is not UTF-8 / ASCII; such a '
+        'body is structurally valid, so the "parse error only" clause is not applied to it',
+        'a boundary containing a comma is refused with 415 by the media-handler lookup (Content-Type is split like an '
+        'Accept header) before the multipart parser runs; commas are excluded from generated boundaries',
+        'a quoted name ending in an escaped backslash ("a\\\\") is mis-split by the inherited cgi.parse_header logic; '
+        'quotes and backslashes are excluded from generated names']
     rng = ctx.rng
 
     # ---- leg M: the design -------------------------------------------------------------------
